@@ -129,8 +129,11 @@ def bounded(tier, seed):
     # specifications on every short line (a predicate that is too generous keeps a layout-dependent break)
     from . import funcspecs as FS
     evals += FS.tag_line_predicates(viol) + FS.block_heuristics(viol)
+    # an escape sticks once written (recorded finding C03-sticky-escapes): the set of words that get one must not grow beyond
+    # the words that need one
+    evals += FS.escape_only_where_needed(viol)
     return {"evaluations": evals, "distinct_nontrivial": len(distinct), "violations": viol, "samples": [{"text": docs[0]}],
-            "rule": "(also: the tag-line predicates and block heuristics against their specifications on every line of <= 4 / 5 symbols) seeded documents (no hazard words): multiplying inter-word spaces leaves the output unchanged at (88,fill), "
+            "rule": "(also: the tag-line predicates and block heuristics against their specifications on every line of <= 4 / 5 symbols; markdown_escape_word escapes only words that start a block construct, on every word of <= 3 symbols over 20 Markdown-significant characters) seeded documents (no hazard words): multiplying inter-word spaces leaves the output unchanged at (88,fill), "
                     "(20,fill), (30,semantic); formatting first with (w1,mode1) and then with (w2,mode2) equals formatting with "
                     "(w2,mode2) directly; seeded paragraphs (plain and in a list item) with template tags / comments in mid-line position and list-like words, in two soft-break layouts: same output; seeded paragraphs whose inline constructs (emphasis, strong, one- and two-tilde strikethrough, link text, code span, image alt) span several words, in two soft-break layouts: same output; distinct = distinct baseline outputs",
             "exhaustive": False, "bound": "%d documents" % n}
